@@ -240,16 +240,18 @@ impl<'de> Deserialize<'de> for KeyBindings {
     {
         let parsed_map = HashMap::<Scene, HashMap<String, Action>>::deserialize(deserializer)?;
 
+        // a key text that does not parse is an error of the config file, not a reason to panic
         let keybindings = parsed_map
             .into_iter()
             .map(|(mode, inner_map)| {
                 let converted_inner_map = inner_map
                     .into_iter()
-                    .map(|(key_str, cmd)| (parse_key_sequence(&key_str).unwrap(), cmd))
-                    .collect();
-                (mode, converted_inner_map)
+                    .map(|(key_str, cmd)| Ok((parse_key_sequence(&key_str)?, cmd)))
+                    .collect::<Result<_, String>>()?;
+                Ok((mode, converted_inner_map))
             })
-            .collect();
+            .collect::<Result<_, String>>()
+            .map_err(serde::de::Error::custom)?;
 
         Ok(KeyBindings(keybindings))
     }
